@@ -3,13 +3,22 @@
 package c01
 
 import (
+	"bytes"
 	"fmt"
+	"io"
 	"strings"
 	"testing"
 
 	"github.com/cloudflare/circl/internal/zzverif/lib"
 	"github.com/cloudflare/circl/kem"
+	"github.com/cloudflare/circl/kem/kyber/kyber1024"
+	"github.com/cloudflare/circl/kem/kyber/kyber512"
+	"github.com/cloudflare/circl/kem/kyber/kyber768"
+	"github.com/cloudflare/circl/kem/mlkem/mlkem1024"
+	"github.com/cloudflare/circl/kem/mlkem/mlkem512"
+	"github.com/cloudflare/circl/kem/mlkem/mlkem768"
 	"github.com/cloudflare/circl/kem/schemes"
+	"github.com/cloudflare/circl/kem/xwing"
 )
 
 // TestVerifRandomizedAndAuth drives the entry points the seeded workload of
@@ -181,6 +190,52 @@ func TestVerifRandomizedAndAuth(t *testing.T) {
 			}
 		}
 	})
+	// package-level GenerateKeyPair(rand): the key seed is read from the
+	// supplied reader - whole or in short pieces - and the key pair must be the
+	// one derived from exactly those octets
+	lib.Mandatory("randomized:short-read-randomness")
+	mb := func(k interface{ MarshalBinary() ([]byte, error) }) []byte { b, _ := k.MarshalBinary(); return b }
+	type gk struct {
+		name string
+		seed int
+		gen  func(rd io.Reader) ([]byte, error)
+		der  func(seed []byte) []byte
+	}
+	gks := []gk{
+		{"mlkem512", mlkem512.KeySeedSize, func(rd io.Reader) ([]byte, error) { _, sk, err := mlkem512.GenerateKeyPair(rd); return mb(sk), err },
+			func(seed []byte) []byte { _, sk := mlkem512.NewKeyFromSeed(seed); return mb(sk) }},
+		{"mlkem768", mlkem768.KeySeedSize, func(rd io.Reader) ([]byte, error) { _, sk, err := mlkem768.GenerateKeyPair(rd); return mb(sk), err },
+			func(seed []byte) []byte { _, sk := mlkem768.NewKeyFromSeed(seed); return mb(sk) }},
+		{"mlkem1024", mlkem1024.KeySeedSize, func(rd io.Reader) ([]byte, error) { _, sk, err := mlkem1024.GenerateKeyPair(rd); return mb(sk), err },
+			func(seed []byte) []byte { _, sk := mlkem1024.NewKeyFromSeed(seed); return mb(sk) }},
+		{"kyber512", kyber512.KeySeedSize, func(rd io.Reader) ([]byte, error) { _, sk, err := kyber512.GenerateKeyPair(rd); return mb(sk), err },
+			func(seed []byte) []byte { _, sk := kyber512.NewKeyFromSeed(seed); return mb(sk) }},
+		{"kyber768", kyber768.KeySeedSize, func(rd io.Reader) ([]byte, error) { _, sk, err := kyber768.GenerateKeyPair(rd); return mb(sk), err },
+			func(seed []byte) []byte { _, sk := kyber768.NewKeyFromSeed(seed); return mb(sk) }},
+		{"kyber1024", kyber1024.KeySeedSize, func(rd io.Reader) ([]byte, error) { _, sk, err := kyber1024.GenerateKeyPair(rd); return mb(sk), err },
+			func(seed []byte) []byte { _, sk := kyber1024.NewKeyFromSeed(seed); return mb(sk) }},
+		{"xwing", xwing.SeedSize, func(rd io.Reader) ([]byte, error) { sk, _, err := xwing.GenerateKeyPair(rd); return mb(sk), err },
+			func(seed []byte) []byte { sk, _ := xwing.DeriveKeyPair(seed); return mb(sk) }},
+		{"xwing-packed", xwing.SeedSize, func(rd io.Reader) ([]byte, error) {
+			sk, pk, err := xwing.GenerateKeyPairPacked(rd)
+			return append(sk, pk...), err
+		},
+			func(seed []byte) []byte { sk, pk := xwing.DeriveKeyPairPacked(seed); return append(sk, pk...) }},
+	}
+	for gi, g := range gks {
+		for i := 0; i < 3; i++ {
+			seed := lib.NewRng("c01/genkey/short/"+g.name, i).Bytes(g.seed)
+			want := g.der(seed)
+			got, err := g.gen(&lib.ShortReader{R: bytes.NewReader(seed)})
+			got2, err2 := g.gen(bytes.NewReader(seed))
+			lib.Count("randomized:short-read-randomness")
+			lib.CaseS("genkey-short", g.name, string(rune('0'+gi)), string(rune('0'+i)))
+			if err != nil || err2 != nil || !lib.Eq(got, want) || !lib.Eq(got2, want) {
+				lib.Violation("C01:generated-key-is-not-derived-from-the-octets-read:"+g.name, mon, lib.D("seed", seed, "err", err, "err_whole", err2,
+					"short_reads_ok", lib.Eq(got, want), "whole_read_ok", lib.Eq(got2, want)))
+			}
+		}
+	}
 	// registry
 	for _, s := range schemes.All() {
 		for _, nm := range []string{s.Name(), strings.ToLower(s.Name()), strings.ToUpper(s.Name())} {
